@@ -55,6 +55,12 @@ Lemma lists_note_cancel e r : lists (note_cancel e r) = lists e.
 Proof. unfold note_cancel. destruct (r_name r) as [[]|]; try reflexivity; destruct (trk e); reflexivity. Qed.
 Lemma reg_note_cancel e r : reg (note_cancel e r) = reg e.
 Proof. exact (core_reg _ _ (core_note_cancel e r)). Qed.
+Lemma lists_note_cancel_m e m r : lists (note_cancel_m e m r) = lists e.
+Proof. destruct m; [reflexivity|apply lists_note_cancel]. Qed.
+Lemma reg_note_cancel_m e m r : reg (note_cancel_m e m r) = reg e.
+Proof. destruct m; [reflexivity|apply reg_note_cancel]. Qed.
+Lemma untracked_tk e m r : untracked (tk e m) r = true -> untracked e r = true.
+Proof. destruct m as [x|]; [|exact id]. unfold untracked. cbn [tk set_trk trk]. destruct (r_name r) as [[]|]; discriminate. Qed.
 Lemma lists_unpause e : lists (unpause_body e) = lists e.
 Proof. unfold unpause_body. destruct (prev _); reflexivity. Qed.
 Lemma lists_unhold e : lists (unhold_body e) = lists e.
@@ -74,19 +80,19 @@ Proof.
         - split; [apply lists_unpause|]. unfold unpause_body. destruct (prev _); reflexivity.
         - split; [apply lists_unhold|]. unfold unhold_body. destruct (paused e); reflexivity. }
       destruct L1 as [L1 R1].
-      destruct (mark_cancelled_raises e1 r).
+      destruct (mark_cancelled_raises (tk e1 m) r).
       * cbn [fst]. split; [exact L1|]. apply (reg_le_trans _ e1); [|now apply reg_le_eq].
         apply (reg_le_put e1 _ c); try reflexivity. now rewrite R1.
-      * rewrite lists_mark_done. split; [cbn; rewrite <- L1; apply lists_note_cancel|].
+      * rewrite lists_mark_done. split; [cbn; rewrite <- L1; apply lists_note_cancel_m|].
         intros x Hx. rewrite reg_mark_done in Hx. cbn in Hx. apply filter_In in Hx as [Hx _].
-        rewrite reg_note_cancel, R1 in Hx. exists x. auto.
+        rewrite reg_note_cancel_m, R1 in Hx. exists x. auto.
   - destruct (find_u e n) as [c|]; [|split; [reflexivity|apply reg_le_refl]].
     destruct (c_complete c).
     + rewrite lists_mark_done. split; [reflexivity|]. apply reg_le_eq. now rewrite reg_mark_done.
-    + destruct (mark_cancelled_raises e r).
+    + destruct (mark_cancelled_raises (tk e m) r).
       * cbn [fst]. split; [reflexivity|apply reg_le_eq; reflexivity].
-      * rewrite lists_mark_done. split; [cbn; apply lists_note_cancel|].
-        apply reg_le_eq. rewrite reg_mark_done. cbn. apply reg_note_cancel.
+      * rewrite lists_mark_done. split; [cbn; apply lists_note_cancel_m|].
+        apply reg_le_eq. rewrite reg_mark_done. cbn. apply reg_note_cancel_m.
 Qed.
 
 Lemma cancel_all_frame e m src :
@@ -110,7 +116,7 @@ Proof.
   intros H. unfold cancel_request. rewrite H. destruct (find_u e n) as [c|]; [|reflexivity].
   destruct (c_complete c).
   - rewrite core_mark_done. reflexivity.
-  - destruct (mark_cancelled_raises e r); [reflexivity|]. rewrite core_mark_done. cbn. apply core_note_cancel.
+  - destruct (mark_cancelled_raises (tk e m) r); [reflexivity|]. rewrite core_mark_done. cbn. apply core_note_cancel_m.
 Qed.
 
 (* ---------- one tick of an internal command ---------- *)
@@ -295,6 +301,12 @@ Proof.
   destruct n; try reflexivity; rewrite T; apply andb_false_r.
 Qed.
 
+Lemma req_ok_tracked_tk e m r n : req_ok r -> r_name r = CI n -> untracked (tk e m) r = false.
+Proof.
+  intros Hr Hn. destruct (untracked (tk e m) r) eqn:E; [|reflexivity].
+  apply untracked_tk in E. now rewrite (req_ok_tracked e r n Hr Hn) in E.
+Qed.
+
 Lemma exec_internal_ok safe e m r n :
   G e -> req_ok r -> r_name r = CI n -> after (exec_internal safe e m r n).
 Proof.
@@ -308,7 +320,7 @@ Proof.
         - intros x Hx. cbn in Hx. apply filter_In in Hx as [Hx _]. now apply R. }
       pose proof (G_mark_done (fin_i e n) m r Gd) as Gm.
       destruct (mark_done (fin_i e n) m r) as [e1 m1]. cbn [fst] in *. split; [exact Gm|].
-      cbn. rewrite (req_ok_tracked e1 r n Hreq Hname). discriminate.
+      cbn. rewrite (req_ok_tracked_tk e1 m1 r n Hreq Hname). discriminate.
     + assert (U : unit_ok c e) by (unfold unit_ok; destruct Nm as [K|K]; rewrite K; exact Logic.I).
       assert (Hr : i_name c = Restart -> i_pc c = O -> sys e <> Restarting) by (intros _ K; lia).
       assert (Hy : forall y, In y (reg e) -> i_name y = i_name c \/ inst_ok y) by (intros y K; right; now apply R).
@@ -316,7 +328,7 @@ Proof.
       destruct (tick_icmd safe e m c) as [[[e1 m1] failed] fin].
       destruct (failed || fin).
       * pose proof (G_mark_done e1 m1 r T) as Gm. destruct (mark_done e1 m1 r) as [e2 m2]. cbn [fst] in *.
-        split; [exact Gm|]. cbn. rewrite (req_ok_tracked e2 r n Hreq Hname). discriminate.
+        split; [exact Gm|]. cbn. rewrite (req_ok_tracked_tk e2 m2 r n Hreq Hname). discriminate.
       * split; [exact T|]. cbn. discriminate.
   - destruct ((match n with Pause | Unpause | Hold | Unhold => true | _ => false end) && negb (started e)) eqn:Efix.
     + pose proof (G_mark_done e m r (Build_G e I L R)) as Gm. destruct (mark_done e m r) as [e1 m1].
@@ -338,7 +350,7 @@ Proof.
         split; [exact A|split; [exact B|]]. intros r' Hr'. inversion Hr'; subst. exact Hreq. }
       destruct K1 as [C1 [R1 L1]].
       assert (I1 : Inv e1) by now apply (Inv_core e0).
-      rewrite (req_ok_tracked e1 r n Hreq Hname).
+      rewrite (req_ok_tracked_tk e1 m r n Hreq Hname).
       assert (Hin : In c (reg e1)) by (rewrite R1; cbn; apply in_or_app; right; now left).
       assert (U : unit_ok c e1).
       { unfold unit_ok. cbn. rewrite (core_started _ _ C1). cbn.
@@ -356,7 +368,7 @@ Proof.
       destruct (tick_icmd safe e1 m c) as [[[e2 m2] failed] fin].
       destruct (failed || fin).
       * pose proof (G_mark_done e2 m2 r T) as Gm. destruct (mark_done e2 m2 r) as [e3 m3]. cbn [fst] in *.
-        split; [exact Gm|]. cbn. rewrite (req_ok_tracked e3 r n Hreq Hname). discriminate.
+        split; [exact Gm|]. cbn. rewrite (req_ok_tracked_tk e3 m3 r n Hreq Hname). discriminate.
       * split; [exact T|]. cbn. discriminate.
 Qed.
 
@@ -413,12 +425,12 @@ Proof.
     destruct (c_cancelled c).
     + pose proof (same_mark_done (fin_u e2 c) m2 r) as K. destruct (mark_done (fin_u e2 c) m2 r) as [e5 m5].
       cbn [fst snd] in *. split; [|discriminate]. eapply same_trans; [exact K|]. eapply same_trans; [|exact S02]. split; reflexivity.
-    + set (e4 := if c_init c then e2 else emit e2 (EUInit n (c_id c))).
+    + set (e4 := if c_init c then e2 else put_u (emit e2 (EUInit n (c_id c))) (inited c)).
       assert (S4 : same e4 e2) by (unfold e4; destruct (c_init c); split; reflexivity).
-      destruct (negb (c_started c) && untracked e4 r) eqn:Eu.
+      destruct (negb (c_started c) && untracked (tk e4 m2) r) eqn:Eu.
       * cbn [fst snd]. split.
         -- eapply same_trans; [|exact S02]. eapply same_trans; [|exact S4]. split; reflexivity.
-        -- intros _. apply andb_true_iff in Eu as [_ Eu]. unfold untracked in Eu.
+        -- intros _. apply andb_true_iff in Eu as [_ Eu]. apply untracked_tk in Eu. unfold untracked in Eu.
            assert (T : trk e4 = trk e).
            { destruct S4 as [C4 _]. destruct S02 as [C2 _]. unfold core in *. inversion C4. inversion C2. congruence. }
            rewrite <- T. destruct (r_name r) as [[]|]; try discriminate; apply andb_true_iff in Eu as [Eu _]; exact Eu.
@@ -444,12 +456,12 @@ Proof.
     set (e3 := set_cmds e2 (reg e2) (uods e2 ++ [c])).
     assert (S3 : same e3 e2) by (split; reflexivity).
     cbn [c_cancelled c_init c_started c_complete c_id c_iter c negb andb].
-    set (e4 := emit e3 (EUInit n (r_id r))).
+    set (e4 := put_u (emit e3 (EUInit n (r_id r))) _).
     assert (S4 : same e4 e3) by (split; reflexivity).
-    destruct (untracked e4 r) eqn:Eu.
+    destruct (untracked (tk e4 m2) r) eqn:Eu.
     + cbn [fst snd]. split.
       * eapply same_trans; [|exact S02]. eapply same_trans; [|exact S3]. eapply same_trans; [|exact S4]. split; reflexivity.
-      * intros _. unfold untracked in Eu.
+      * intros _. apply untracked_tk in Eu. unfold untracked in Eu.
         assert (T : trk e4 = trk e).
         { destruct S02 as [C2 _]. unfold core in *. inversion C2. cbn. congruence. }
         rewrite <- T. destruct (r_name r) as [[]|]; try discriminate; apply andb_true_iff in Eu as [Eu _]; exact Eu.
